@@ -152,7 +152,7 @@ def judgeOnce (st : St) (afterFlush : Bool) : String :=
     let em := (st.implEm.filter (·.1 == k)).flatMap (·.2)
     let arr := (seenOf st k).map (·.id)
     if afterFlush then em != arr else !isPrefix em arr
-  if bad.isEmpty then "" else s!"C12 emitted windows are not the arrivals in order for key(s) {bad}"
+  if bad.isEmpty then "" else s!"C12 emitted windows are not the arrivals in order for key(s) {repr bad}"
 
 def tumblingOkB (st : St) (d : Int) (w : List Nat) : Bool :=
   let ts := w.map (tsOf st)
@@ -201,7 +201,7 @@ def judgeLine (st : St) (op : Op) (em : List (String × List Nat)) (opTime : Opt
         let exp := if st.engine then exp.filter (!·.isEmpty) else exp
         let got := (em.filter (·.1 == k)).map (·.2)
         exp != got
-      if bad.isEmpty then "" else s!"C13 time-sliding emission is not the events in range / not due, key(s) {bad}"
+      if bad.isEmpty then "" else s!"C13 time-sliding emission is not the events in range / not due, key(s) {repr bad}"
   | .scount size slide =>
     (match op with
      | .add e =>
